@@ -67,3 +67,25 @@ package store
 //@   props C16
 //@   requires r != nil && resultChan != nil
 //@   ensures[C16] forall c ref :: c != ref(resultChan) ==> sent(c) == old(sent(c))
+
+// ---- C01 (store flavour): a layer is exposed under <ref>/<digest>/ only after it was verified against that digest ----
+// The root node ("diff") and the raw blob node ("blob") of a layer are created only for a layer object whose Verify,
+// called by this very lookup with the digest of the directory, succeeded (ghost record of the Layer calls).
+//@ ghost verifiedLayer ref quiet
+//@ ghost verifiedDigest string quiet
+//@ ghost rootLayer ref quiet
+//@ ghost rootNodes int quiet
+//@ func interface fs/layer.Layer.Verify
+//@   modifies verifiedLayer, verifiedDigest
+//@   ensures err == nil ==> verifiedLayer == payload(self) && verifiedDigest == tocDigest
+//@   ensures err != nil ==> verifiedLayer == old(verifiedLayer) && verifiedDigest == old(verifiedDigest)
+//@ func interface fs/layer.Layer.RootNode
+//@   modifies rootLayer, rootNodes
+//@   ensures rootLayer == payload(self) && rootNodes == old(rootNodes) + 1 && (result1 == nil ==> result0 != nil)
+// (`taggedonly`: run-time safety of this go-fuse callback -- node type switches, attribute copies -- is not claimed)
+//@ func (n *layernode) Lookup
+//@   props C01,C16
+//@   taggedonly
+//@   requires n.fs != nil && n.fs.layerManager != nil && n.refnode != nil && out != nil && n.fs.layerMap != nil
+//@   assert[C01,C16] before "cn := &blobnode{l: l, fs: n.fs}" : verifiedLayer == payload(l) && verifiedDigest == n.digest
+//@   ensures[C01,C16] rootNodes == old(rootNodes) || (rootNodes == old(rootNodes) + 1 && rootLayer == verifiedLayer && verifiedDigest == n.digest)
